@@ -16,7 +16,7 @@ import fractions
 import pathlib
 import re
 import typing as t
-from typing import List, Dict, Optional, Union
+from typing import List, Dict, Optional, Union, Literal
 
 import pane
 from pane import PaneBase, field
@@ -96,6 +96,20 @@ TIMES = (datetime.time(1, 2, 3), datetime.time(23, 59, 59, 999999))
 PATS = (re.compile('a+'), re.compile(r'^\\d{2}$'))
 FRS = (fractions.Fraction(1, 3), fractions.Fraction(-5, 2), fractions.Fraction(4, 1))
 DECS = (decimal.Decimal('1.5'), decimal.Decimal('-0.001'), decimal.Decimal('1E+3'))
+
+
+class VL(PaneBase):
+    """legacy schema: same tag key and tag value as shared.VX, other fields"""
+    t: Literal['x'] = 'x'
+    legacy: int = 0
+
+
+class VM(PaneBase):
+    t: Literal['m'] = 'm'
+    legacy: int = 0
+
+
+TWO_TAGGED = t.Union[TYPES['tag_int'], t.Annotated[t.Union[VL, VM], pane.annotations.Tagged('t')]]
 
 
 class IN1(PaneBase):
@@ -195,12 +209,16 @@ def native(kind, sel, i, j):
         # an alias whose union members are in the OTHER order was used just before: must not matter
         pane.convert([1.5, 2], list[t.Union[float, int]])
         return list[t.Union[int, float]], [i, 2.5, j], None
-    else:
+    elif kind == 33:
         pane.convert({'k': 1}, dict[str, t.Union[int, str]])
         return dict[str, t.Union[str, int]], {'k': i, 'q': 's'}, None
+    elif kind == 34:
+        return TWO_TAGGED, (VL.make_unchecked(legacy=i) if sel == 0 else (VM.make_unchecked(legacy=i) if sel == 1 else shared.VX.make_unchecked(a=i))), None
+    else:
+        return t.List[TWO_TAGGED], [VL.make_unchecked(legacy=i), shared.VY.make_unchecked(a='s')], None
 
 
-for _k in range(34):
+for _k in range(36):
     for _s in range(3):
         try:
             (_T, _x, _f) = native(_k, _s, 1, 0)
@@ -234,8 +252,8 @@ def body_native_{lo}(kind: int, sel: int, i: int, j: int) -> int:
             return r
     return 0
 '''
-for _lo in range(0, 34, 2):
-    exec(_NAT.format(lo=_lo, hi=min(_lo + 1, 33)))
+for _lo in range(0, 36, 2):
+    exec(_NAT.format(lo=_lo, hi=min(_lo + 1, 35)))
 
 
 @obligation(pre="0 <= which <= 2 and 0 <= e <= 1", witnesses=(0,), timeout=120)
